@@ -35,6 +35,13 @@ def showRes : Option (Nat × Nat × Bytes) → String
 
 def step (t : List String) : String :=
   match t with
+  -- concurrent batch: the model is a pure function, so concurrency cannot change any answer;
+  -- a well-formed batch is "ok" (the harness compares every concurrent result on the real code)
+  | ["conc", seed, g, iters] =>
+    match seed.toNat?, g.toNat?, iters.toNat? with
+    | some sd, some g, some it =>
+      if sd < 2 ^ 64 ∧ 2 ≤ g ∧ g ≤ 64 ∧ 1 ≤ it ∧ it ≤ 100000 then "ok" else "bad-op"
+    | _, _, _ => "bad-op"
   | op :: node :: number :: n :: rest =>
     match parseHex node, number.toNat?, n.toNat?, parseSnaps rest with
     | some node, some number, some n, some snaps =>
